@@ -117,11 +117,11 @@ Proof. exact bstep_spool. Qed.
 Print Assumptions C05_step_spool.
 
 (* every step of the sub-language keeps the invariant, "every valid pool handle is a view of
-   the object table" and "the table holds handle cores" *)
+   the object table" and "the table holds handle cores"; the tables only grow (ext) *)
 Theorem C05_step_hinv : forall e st objs pads o st' out,
   sinv st objs pads -> spool st -> sub_op o = true -> dst_only st o -> bstep e st o = (Some st', out) ->
   nsegs (w_dst (st_w st')) < 4294967296 ->
-  exists objs' pads', sinv st' objs' pads'.
+  exists objs' pads', sinv st' objs' pads' /\ ext objs pads objs' pads'.
 Proof. exact bstep_hinv. Qed.
 Print Assumptions C05_step_hinv.
 
